@@ -66,3 +66,49 @@ Proof.
   2:{ apply (pps_nal_roundtrip c1 p plists k2 104 _ [] Hc1 Hp D2 (Hne _ _) (Forall_nil _)). cbn [concat]. apply app_nil_r. }
   reflexivity.
 Qed.
+
+(* ---- the unit_ok hypotheses follow from the rbsp trailing bits: the last RBSP byte holds the stop bit ---- *)
+Lemma stop_bit_in_last_byte (X b : list bool) k :
+  X ++ repeat false 8 = b ++ true :: repeat false k -> (k < 8)%nat -> False.
+Proof.
+  intros H Hk. pose proof (f_equal (@length bool) H) as Hl. rewrite !app_length in Hl. cbn [length] in Hl. rewrite !repeat_length in Hl.
+  apply (f_equal (fun l => nth (length b) l false)) in H. rewrite nth_middle in H.
+  rewrite app_nth2 in H by lia. rewrite nth_repeat in H. discriminate.
+Qed.
+
+Lemma pack_nonempty_last b k : (k < 8)%nat -> (8 | N.of_nat (length (b ++ trailing_bits k))) ->
+  pack (b ++ trailing_bits k) <> [] /\ last (pack (b ++ trailing_bits k)) 1 <> 0.
+Proof.
+  intros Hk Hd. pose proof (bits_of_bytes_pack _ Hd) as Hb. unfold trailing_bits in *.
+  assert (Hne : pack (b ++ true :: repeat false k) <> []).
+  { intros E. rewrite E in Hb. cbn in Hb. destruct b; discriminate. }
+  split; [exact Hne|]. intros Hl.
+  destruct (exists_last Hne) as (q & a & Eq). rewrite Eq in Hl, Hb. rewrite last_last in Hl. subst a.
+  unfold bits_of_bytes in Hb. rewrite flat_map_app in Hb. cbn [flat_map] in Hb. rewrite app_nil_r in Hb.
+  assert (Hz : bits_of_byte 0 = repeat false 8) by reflexivity. rewrite Hz in Hb.
+  exact (stop_bit_in_last_byte _ _ _ Hb Hk).
+Qed.
+
+Lemma nal_of_bits_unit_ok hdr b k : hdr <> 0 -> (k < 8)%nat -> (8 | N.of_nat (length (b ++ trailing_bits k))) ->
+  unit_ok (nal_of_bits hdr (b ++ trailing_bits k)).
+Proof.
+  intros Hh Hk Hd. destruct (pack_nonempty_last b k Hk Hd) as [H1 H2]. unfold nal_of_bits. apply unit_ok_escaped; assumption.
+Qed.
+
+(* the capstone without side conditions on the bytes: well-formed structures, byte-completing trailing bits *)
+Theorem stream_sps_pps x lists k1 p plists k2 n1 n2 t cs ctx0 pre :
+  let c1 := put_seq_param_set ctx0 x in
+  wf_sps x lists -> ctx_sps_ok ctx0 -> wf_pps c1 p plists ->
+  (k1 < 8)%nat -> (k2 < 8)%nat ->
+  (8 | N.of_nat (length (enc_sps x lists ++ trailing_bits k1))) ->
+  (8 | N.of_nat (length (enc_pps p plists ++ trailing_bits k2))) ->
+  (t = 0%nat \/ 3 <= t)%nat ->
+  concat cs = annexb_encode [(n1, nal_of_bits 103 (enc_sps x lists ++ trailing_bits k1));
+                             (n2, nal_of_bits 104 (enc_pps p plists ++ trailing_bits k2))] t ->
+  ps_ctx (fst (pipeline_run ctx0 [] pre (map APush cs ++ [AReset]))) = put_pic_param_set c1 p.
+Proof.
+  intros c1 Hx Hc Hp K1 K2 D1 D2 Ht Hcat.
+  apply (stream_sps_pps_context x lists k1 p plists k2 n1 n2 t cs ctx0 pre Hx Hc Hp D1 D2); try assumption.
+  - apply nal_of_bits_unit_ok; [discriminate|exact K1|exact D1].
+  - apply nal_of_bits_unit_ok; [discriminate|exact K2|exact D2].
+Qed.
